@@ -2,10 +2,10 @@
    Statements only, each closed by `exact`.  The table functions (dhcp_pick, set_address,
    release_addr, load_json, load_bin, save_bin) are the ones the monadic master of Net/Mesh.v
    calls on its dhcp_dict; the differential run (corr/c16.py) ties that master to rf24_mesh.py.
-   What is NOT proved here: that the network layer underneath (_write and the frames it relays
-   while waiting) leaves dhcp_dict alone -- that is covered by the correspondence only. *)
+   The last two theorems are about the monadic master itself: the network layer never touches the
+   table, and RF24Mesh.update() keeps it one-to-one whatever arrives, on every bus. *)
 From Coq Require Import ZArith NArith List Bool.
-From NRF Require Import Drv.RF24 Net.Addr Net.Mesh Net.DhcpFacts.
+From NRF Require Import Drv.RF24 Net.Addr Net.Node Net.Mesh Net.DhcpFacts Net.KeepFacts Net.MasterFacts.
 Import ListNotations.
 Local Open Scope Z_scope.
 
@@ -68,6 +68,23 @@ Print Assumptions C16_binary_save_total.
 Theorem C16_json_roundtrip : forall d, Inj d -> load_json d [] = d.
 Proof. exact load_json_roundtrip. Qed.
 Print Assumptions C16_json_roundtrip.
+
+
+(* The network layer (Net/Node.v: _net_update, the handlers, _write, _write_to_pipe, the fragment loop, the
+   NETWORK_ACK wait) never changes node ID, lease table or the pending-request flag: on EVERY bus (any world,
+   any traffic, any loss pattern), for every amount of fuel. *)
+Theorem C16_network_layer_keeps_the_table : forall bus (B : busops bus) fuel,
+  (forall rv, Keeps (net_update B fuel rv)) /\ (forall wd st, Keeps (write_ B fuel wd st)).
+Proof. intros bus B fuel. split; [intro rv; apply keeps_net_update|intros wd st; apply keeps_write]. Qed.
+Print Assumptions C16_network_layer_keeps_the_table.
+
+(* RF24Mesh.update() on the master, as modelled (frame reception, dispatch to request / release / lookup handling,
+   _dhcp(), the replies it transmits): if no address is held by two IDs before the call, none is afterwards --
+   whatever bytes have arrived, in every world, and hence after any number of calls. *)
+Theorem C16_master_update_keeps_table_one_to_one : forall bus (B : busops bus) n b,
+  Inj (n_dhcp n) -> Inj (n_dhcp (snd (fst (update_master B n b)))).
+Proof. intros bus B. exact (tinv_update_master B). Qed.
+Print Assumptions C16_master_update_keeps_table_one_to_one.
 
 (* non-vacuity: a concrete history on which requests are served, refused and released *)
 Example C16_history_example :
